@@ -1,0 +1,11 @@
+//go:build verif
+// +build verif
+
+package cursor
+
+// VC13ApplyPos runs the position-string handling of a cursor (applyPos: corner positions, then
+// applyStatePos) on a cursor without partitions. Compiled only under the build tag `verif`.
+func VC13ApplyPos(pos string) error {
+	cur := &crsr{state: State{Pos: pos}, jDescs: map[string]*jrnlDesc{}}
+	return cur.applyPos()
+}
